@@ -20,6 +20,7 @@ class Node:
         self.extra_fields = kw.get('extra_fields', 0)   # wstruct: unselected extra fields (stay zero)
         self.prevented = kw.get('prevented', 0)  # wstruct: fields tagged wire:"-" (stay zero)
         self.star = kw.get('star', False)       # wstruct: use "*" selection
+        self.fieldcase = kw.get('fieldcase', False)  # struct fields are named Fx / fx (differ only in case); components share one type
         self.variadic = kw.get('variadic', False)  # func: last parameter is variadic (...T of a slice-typed source)
         self.place = kw.get('place', 'direct')  # direct | set1 | set2 (nested in set1) | other (set in another package)
         self.name = kw.get('name')              # override of the Go identifier of the provider/type
@@ -88,6 +89,8 @@ class Namer:
         return 'T%d' % k
 
     def comp_tname(self, k, j):
+        if self.spec.nodes[k].fieldcase:
+            j = 0
         return '%sC%d' % (self.tname(k), j)
 
     def fname(self, k):
@@ -117,6 +120,14 @@ def go_type(spec, nm, k, form):
         return ('*' if form == 'ptr' else '') + base
     base = nm.tname(k)
     return ('*' if form == 'ptr' else '') + base
+
+
+CASE_NAMES = ['Fx', 'fx', 'FX', 'fX']
+
+
+def fld(n, j):
+    """Name of field j of the struct node n."""
+    return CASE_NAMES[j] if getattr(n, 'fieldcase', False) else 'F%d' % j
 
 
 def ids_expr(spec, nm, k, form, x):
@@ -189,11 +200,12 @@ def render_package(spec, pkgname, modpath, other_pkg=None):
                 hl = []
                 for j in range(n.ncomp):
                     ct = nm.comp_tname(k, j)
-                    w('type %s struct{ ID int }\n' % ct)
-                    helpers.append('func ids%s(x %s) []int { return []int{x.ID} }' % (ct, ct))
-                    helpers.append('func idsP%s(x *%s) []int { if x == nil { return []int{0} }; return []int{x.ID} }' % (ct, ct))
-                    flds.append('F%d %s' % (j, ct))
-                    hl.append('x.F%d.ID' % j)
+                    if not (n.fieldcase and j > 0):
+                        w('type %s struct{ ID int }\n' % ct)
+                        helpers.append('func ids%s(x %s) []int { return []int{x.ID} }' % (ct, ct))
+                        helpers.append('func idsP%s(x *%s) []int { if x == nil { return []int{0} }; return []int{x.ID} }' % (ct, ct))
+                    flds.append('%s %s' % (fld(n, j), ct))
+                    hl.append('x.%s.ID' % fld(n, j))
                 w('type %s struct{ %s }\n' % (t, '; '.join(flds)))
                 helpers.append('func ids%s(x %s) []int { return []int{%s} }' % (t, t, ', '.join(hl)))
             helpers.append('func idsP%s(x *%s) []int { if x == nil { return make([]int, %d) }; return ids%s(*x) }' % (t, t, n.ncomp, t))
@@ -201,8 +213,8 @@ def render_package(spec, pkgname, modpath, other_pkg=None):
             t = nm.tname(k)
             flds, parts = [], []
             for j, (d, f) in enumerate(n.deps):
-                flds.append('F%d %s' % (j, go_type(spec, nm, d, f)))
-                parts.append(ids_expr(spec, nm, d, f, 'x.F%d' % j))
+                flds.append('%s %s' % (fld(n, j), go_type(spec, nm, d, f)))
+                parts.append(ids_expr(spec, nm, d, f, 'x.%s' % fld(n, j)))
             for j in range(n.extra_fields):
                 flds.append('X%d vrt.Zero' % j)
                 parts.append('[]int{x.X%d.ID}' % j)
@@ -265,7 +277,7 @@ def render_package(spec, pkgname, modpath, other_pkg=None):
         if n.ncomp == 1:
             val = '%s%s{ID: id}' % ('&' if n.ptr else '', t)
         else:
-            val = '%s%s{%s}' % ('&' if n.ptr else '', t, ', '.join('F%d: %s{ID: id + %d}' % (j, nm.comp_tname(k, j), j) for j in range(n.ncomp)))
+            val = '%s%s{%s}' % ('&' if n.ptr else '', t, ', '.join('%s: %s{ID: id + %d}' % (fld(n, j), nm.comp_tname(k, j), j) for j in range(n.ncomp)))
         if n.has_err:
             w('\tif err != nil {\n\t\treturn %s%s, err\n\t}' % (zero, ', vrt.FailedCleanupFn(%d)' % k if n.has_cleanup else ''))
         else:
@@ -286,20 +298,20 @@ def render_package(spec, pkgname, modpath, other_pkg=None):
         if n.kind == WSTRUCT:
             if n.star:
                 return 'wire.Struct(new(%s%s), "*")' % (qual, nm.tname(k))
-            return 'wire.Struct(new(%s%s)%s)' % (qual, nm.tname(k), ''.join(', "F%d"' % j for j in range(len(n.deps))))
+            return 'wire.Struct(new(%s%s)%s)' % (qual, nm.tname(k), ''.join(', "%s"' % fld(n, j) for j in range(len(n.deps))))
         if n.kind == VALUE:
             t = qual + nm.tname(k)
             if n.ncomp == 1:
                 lit = '%s{ID: %d}' % (t, 700 + 10 * k)
             else:
-                lit = '%s{%s}' % (t, ', '.join('F%d: %s%s{ID: %d}' % (j, qual, nm.comp_tname(k, j), 700 + 10 * k + j) for j in range(n.ncomp)))
+                lit = '%s{%s}' % (t, ', '.join('%s: %s%s{ID: %d}' % (fld(n, j), qual, nm.comp_tname(k, j), 700 + 10 * k + j) for j in range(n.ncomp)))
             return 'wire.Value(%s%s)' % ('&' if n.ptr else '', lit)
         if n.kind == IVALUE:
             return 'wire.InterfaceValue(new(%s%s), %s%s{ID: %d})' % (qual, nm.iname(k), qual, nm.tname(k), 700 + 10 * k)
         if n.kind == FIELD:
             p = nodes[n.parent]
             pt = ('*' if p.ptr else '') + qual + nm.tname(n.parent)
-            return 'wire.FieldsOf(new(%s), "F%d")' % (pt, n.fieldno)
+            return 'wire.FieldsOf(new(%s), "%s")' % (pt, fld(p, n.fieldno))
         if n.kind == BIND:
             tn = nodes[n.target]
             if tn.kind == FIELD:
@@ -365,7 +377,7 @@ def render_package(spec, pkgname, modpath, other_pkg=None):
         if n.ncomp == 1:
             lit = '%s{ID: vrt.ArgID("n%d_0")}' % (t, k)
         else:
-            lit = '%s{%s}' % (t, ', '.join('F%d: %s{ID: vrt.ArgID("n%d_%d")}' % (j, nm.comp_tname(k, j), k, j) for j in range(n.ncomp)))
+            lit = '%s{%s}' % (t, ', '.join('%s: %s{ID: vrt.ArgID("n%d_%d")}' % (fld(n, j), nm.comp_tname(k, j), k, j) for j in range(n.ncomp)))
         d.append('\t\tin%d := %s%s' % (k, '&' if n.ptr else '', lit))
         d.append('\t\tspec.ArgIDs[%d] = ids%s%s(in%d)' % (k, 'P' if n.ptr else '', t, k))
         call_args.append('in%d' % k)
@@ -420,6 +432,17 @@ def family_chains(max_n, with_arg=True, flag_sets=None):
                     nodes.append(Node(ARG))
                     nodes[n - 1].deps = nodes[n - 1].deps + [(n, 'val')]
                 yield Spec(nodes, (0, 'val'), label='chain n=%d edges=%s flags=%s' % (n, edges, flags), family='chains')
+                # the injector may declare a cleanup / error result no provider gives rise to (C04: the aggregate
+                # cleanup of an injector without cleanup-returning providers is still a non-nil function)
+                if n <= 2:
+                    ne = any(FLAGS[f][0] for f in flags)
+                    nc = any(FLAGS[f][1] for f in flags)
+                    for re_, rc_ in ((True, True), (ne, True), (True, nc)):
+                        if (re_, rc_) == (ne, nc):
+                            continue
+                        import copy
+                        yield Spec(copy.deepcopy(nodes), (0, 'val'), ret_err=re_, ret_cleanup=rc_, family='chains',
+                                   label='chain n=%d edges=%s flags=%s over-declared results err=%s cleanup=%s' % (n, edges, flags, re_, rc_))
 
 
 def family_kinds():
@@ -486,6 +509,17 @@ def family_kinds():
                 S([Node(FUNC, deps=[(1, ff), (2, 'val')], has_cleanup=True), Node(FIELD, parent=3, fieldno=0), Node(FIELD, parent=3, fieldno=2), par], (0, 'val'),
                   'fields of %s ptr=%s consumed as %s' % (pkind, pptr, ff))
             S([Node(FIELD, parent=1, fieldno=1), par], (0, 'val'), 'field of %s ptr=%s is the result' % (pkind, pptr))
+    # field names that differ only in case (Fx / fx), both of the same type: the named one must be read / set
+    for pkind in (FUNC, ARG, VALUE):
+        for pptr in (False, True):
+            for fno in (0, 1):
+                par = Node(pkind, ptr=pptr, ncomp=2, fieldcase=True)
+                S([Node(FUNC, deps=[(1, 'val')], has_err=True), Node(FIELD, parent=2, fieldno=fno), par], (0, 'val'),
+                  'field %s of a %s ptr=%s whose fields Fx and fx differ only in case and share their type' % (CASE_NAMES[fno], pkind, pptr))
+    for sform in ('val', 'ptr'):
+        S([Node(FUNC, deps=[(1, sform)]), Node(WSTRUCT, deps=[(2, 'val'), (3, 'val')], fieldcase=True, extra_fields=1), Node(FUNC), Node(ARG)], (0, 'val'),
+          'struct provider (%s) whose selected fields Fx and fx differ only in case' % sform)
+        specs[-1].compile_props = ['C01', 'C02', 'C12']
     return specs
 
 
